@@ -156,6 +156,19 @@ def explore(run, n_random, with_active=True):
                                     % (host, "spied" if spied else "un-spied", ls, lt, flat(steps)[:30], final, err,
                                        flat(ref_steps)[:30], ref_final, ref_err),
                                     dict(cj, host=host, spied=spied, live_spy=ls, live_trace=lt))
+        # only some of the states carry the decorator (the start state among them or not)
+        some = frozenset(i for i in range(1, c.n + 1) if rng.random() < 0.5)
+        if some and len(some) < c.n:
+            for host in hosts[:3]:
+                steps, final, err = run_config(c, start, evs, host, some, query=query)
+                run.traces_validated += 1
+                run.count("host=%s mixed decoration (start state %s)" % (host, "spied" if start in some else "plain"))
+                if not (flat(steps) == flat(ref_steps) and final == ref_final and err == ref_err):
+                    run.violate("C18/behaviour-differs/%s/mixed-decoration" % host,
+                                "host %s, states %s carry spy_on and the others do not (start state %d): actions %s (final %s, %s) differ from "
+                                "the plain processor's %s (final %s, %s)" % (host, sorted(some), start, flat(steps)[:30], final, err,
+                                                                             flat(ref_steps)[:30], ref_final, ref_err),
+                                dict(cj, host=host, spied=sorted(some)))
         # un-spied handlers under some other functools.wraps decorator: still "not spied" for every host
         for host in hosts[:3]:
             steps, final, err = run_config(c, start, evs, host, False, builder=other_decorator_build(c))
@@ -222,4 +235,6 @@ def replay(case):
     for host in HOSTS:
         for spied in (False, True):
             print(host, spied, run_config(c, cc["start"], cc["events"], host, spied, query=cc.get("query", False)))
+    if isinstance(cc.get("spied"), list):
+        print(cc["host"], "mixed", run_config(c, cc["start"], cc["events"], cc["host"], frozenset(cc["spied"]), query=cc.get("query", False)))
     return 0
